@@ -6,13 +6,17 @@ Driver handlers for C10. Paths and byte strings travel as lower-case hex (`-` = 
 * `CODECS`                                → the generated table, `name:ext,ext:magichex;…`
 * `LOWER <path>`                          → hex of the ASCII shape of `lowerPath`
 * `DETECT <path> <content>`               → `R=<codec|plain> W=<codec|plain>`
-* `RT <writer> <reader> <path> <plain>`   → `W=<codec|plain|other> R=<SAME|FAIL>`
-* `RD <reader> <path> C <codec> <plain>`  → `DECODED|VERBATIM|FAIL`
-* `RD <reader> <path> P <raw>`            → `VERBATIM|FAIL`
+* `DETECTS <sched> <path> <content>`      → `R=<codec|plain>` (source with a read schedule, `-` = full reads)
+* `RT <writer> <reader> <path> <plain> <opts>`   → `W=<codec|plain|other> R=<SAME|FAIL>`
+* `RD <reader> <path> C <codec> <plain> <opts>`  → `DECODED|VERBATIM|FAIL`
+* `RD <reader> <path> P <raw> <opts>`            → `VERBATIM|FAIL`
+* `CGLOB <kind> <opts> (<path> <writer> <plain>)*` → `W=<c1>,<c2>,… R=<SAME|FAIL>`
+  (`opts` = `sh=<k|none>,per=<k>,par=<0|1>,hdr=<0|1>`)
 
-The handlers evaluate `detectExt`, `detectMagic`, `readerCodec`, `store`, `load` — the definitions the
-theorems of `Props/C10.lean` are about — on the generated table, with the `toy` codec family standing
-in for the real libraries.
+The handlers evaluate `detectExt`, `readerCodecSrc`, `autoWriter`, `autoReader`, the per-entry-point
+definitions (`AnyWriter.run`, `Reader.run`, `readGlob`) — the definitions the theorems of `Props/C10.lean`
+are about — on the generated table, with the `toy` codec family standing in for the real libraries and
+the line formats `lineJsonl` / `lineCsv` (a record = the bytes of one line) standing in for serde.
 -/
 namespace IB.D10
 open IB.Wire IB.Compression
@@ -27,16 +31,66 @@ def path? (s : String) : Option (List Char) := do
 
 def hexOut (bs : Bytes) : String := if bs.isEmpty then "-" else bytesToHex bs
 
-def writer? : String → Option Writer
-  | "raw" => some .raw | "jsonl_vec" => some .jsonlVec | "jsonl_par" => some .jsonlPar
-  | "csv_vec" => some .csvVec | "csv_par" => some .csvPar | "pc_jsonl" => some .pcJsonl
-  | "pc_jsonl_par" => some .pcJsonlPar | "pc_csv" => some .pcCsv | "pc_csv_par" => some .pcCsvPar
-  | "cloud_jsonl" => some .cloudJsonl | _ => none
+/-- writer / reader entry points as they appear in requests -/
+inductive WTok | raw | j (w : JWriter) | c (w : CWriter)
+inductive RTok | raw | j (r : Reader) | c (r : Reader)
 
-def reader? : String → Option Reader
-  | "raw" => some .raw | "jsonl_vec" => some .jsonlVec | "jsonl_helper" => some .jsonlHelper
-  | "jsonl_streaming" => some .jsonlStreaming | "csv_vec" => some .csvVec | "csv_helper" => some .csvHelper
-  | "csv_streaming" => some .csvStreaming | "cloud_jsonl" => some .cloudJsonl | _ => none
+/-- options of a request: `sh=<k|none>,per=<k>,par=<0|1>,hdr=<0|1>` -/
+structure Opts where
+  shards : Option Nat
+  per : Nat
+  par : Bool
+  hdr : Bool
+
+def opts? (s : String) : Option Opts := do
+  let ts := s.splitOn ","
+  let sh ← kv? "sh" ts
+  let per ← (kv? "per" ts).bind parseNat?
+  let par ← kv? "par" ts
+  let hdr ← kv? "hdr" ts
+  let shards ← if sh == "none" then some none else (parseNat? sh).map some
+  let par ← if par == "1" then some true else if par == "0" then some false else none
+  let hdr ← if hdr == "1" then some true else if hdr == "0" then some false else none
+  pure ⟨shards, per, par, hdr⟩
+
+/-- `num_cpus::get().max(2)`: only used when `shards = None`, which the harness never sends to the
+    free parallel writers; the result does not depend on it (`every_writer_wraps`) -/
+def autoShards : Nat := 16
+/-- partition count of `collect_par(None, None)`; the result does not depend on it -/
+def autoParts : Nat := 4
+
+def writer? (o : Opts) : String → Option WTok
+  | "raw" => some .raw | "jsonl_vec" => some (.j .vec) | "jsonl_par" => some (.j (.par o.shards autoShards))
+  | "csv_vec" => some (.c .vec) | "csv_par" => some (.c (.par o.shards autoShards)) | "pc_jsonl" => some (.j .pc)
+  | "pc_jsonl_par" => some (.j (.pcPar o.shards autoShards)) | "pc_csv" => some (.c .pc)
+  | "pc_csv_par" => some (.c (.pcPar autoParts)) | "cloud_jsonl" => some (.j .cloud) | _ => none
+
+def reader? (o : Opts) : String → Option RTok
+  | "raw" => some .raw | "jsonl_vec" => some (.j .vec) | "jsonl_helper" => some (.j .helper)
+  | "jsonl_streaming" => some (.j (.streaming o.per o.par)) | "csv_vec" => some (.c .vec)
+  | "csv_helper" => some (.c .helper) | "csv_streaming" => some (.c (.streaming o.per o.par))
+  | "cloud_jsonl" => some (.j .cloud) | _ => none
+
+/-- the records a plain JSONL payload consists of (one per line) -/
+def jRecs (plain : Bytes) : List Bytes := splitNl plain
+/-- header (with terminator) and records of a plain CSV payload -/
+def cHeader (hdr : Bool) (plain : Bytes) : Bytes :=
+  if hdr then match splitNl plain with | h :: _ => withNl h | [] => [] else []
+def cRecs (hdr : Bool) (plain : Bytes) : List Bytes := IB.Io.csvBody hdr (splitNl plain)
+
+/-- the bytes writer `w` stores under `path` for the payload `plain` -/
+def storedOf (o : Opts) (w : WTok) (path : List Char) (plain : Bytes) : Option Bytes :=
+  match w with
+  | .raw => some (autoWriter toy codecTable path plain)
+  | .j w => (AnyWriter.jsonl w id).run toy codecTable path (jRecs plain)
+  | .c w => (AnyWriter.csv w o.hdr (cHeader o.hdr plain) withNl).run toy codecTable path (cRecs o.hdr plain)
+
+/-- does reader `r` return the payload `plain` from `file` stored under `path`? -/
+def readsBack (o : Opts) (r : RTok) (path : List Char) (file plain : Bytes) : Bool :=
+  match r with
+  | .raw => autoReader toy codecTable path file == some plain
+  | .j r => r.run toy codecTable lineJsonl path file == some (jRecs plain)
+  | .c r => r.run toy codecTable (lineCsv o.hdr) path file == some (cRecs o.hdr plain)
 
 def codecLabel : Option CodecEntry → String
   | some c => c.name
@@ -74,34 +128,83 @@ def classifyStored (stored plain : Bytes) : String :=
     | some r => r.1
     | none => "other"
 
+def sched? (s : String) : Option (List Nat) :=
+  if s == "-" then some [] else
+    (s.splitOn ",").mapM fun t => (parseNat? t).bind fun k => if k = 0 then none else some (k - 1)
+
+/-- `DETECTS <sched> <path> <content>`: the decision on a source with the given read schedule -/
+def handleDetectS : List String → String
+  | [sc, p, c] => match sched? sc, path? p, bytes? c with
+    | some sched, some path, some content =>
+      "R=" ++ codecLabel (readerCodecSrc codecTable path ⟨content, sched⟩)
+    | _, _, _ => "BAD-OP"
+  | _ => "BAD-OP"
+
 def handleRt : List String → String
-  | [w, r, p, x] => match writer? w, reader? r, path? p, bytes? x with
-    | some w, some r, some path, some plain =>
-      let stored := store toy codecTable w path plain
-      let back := load toy codecTable r path stored
-      "W=" ++ classifyStored stored plain ++ " R=" ++ (if back == some plain then "SAME" else "FAIL")
-    | _, _, _, _ => "BAD-OP"
+  | [w, r, p, x, o] => match opts? o with
+    | none => "BAD-OP"
+    | some o => match writer? o w, reader? o r, path? p, bytes? x with
+      | some w, some r, some path, some plain =>
+        match storedOf o w path plain with
+        | none => "W=PANIC R=FAIL"
+        | some stored =>
+          "W=" ++ classifyStored stored plain ++ " R=" ++ (if readsBack o r path stored plain then "SAME" else "FAIL")
+      | _, _, _, _ => "BAD-OP"
   | _ => "BAD-OP"
 
 def handleRd : List String → String
-  | [r, p, "C", c, x] => match reader? r, path? p, bytes? x with
-    | some r, some path, some plain =>
-      if (signatureOf c).isNone then "BAD-OP" else
-      let file := toy.compress c plain
-      match load toy codecTable r path file with
-      | some y =>
-        if y == plain then "DECODED"
-        else if y == file && r == .raw then "VERBATIM"   -- record readers cannot parse a compressed stream
-        else "FAIL"
-      | none => "FAIL"
-    | _, _, _ => "BAD-OP"
-  | [r, p, "P", x] => match reader? r, path? p, bytes? x with
-    | some r, some path, some raw =>
-      if load toy codecTable r path raw == some raw then "VERBATIM" else "FAIL"
-    | _, _, _ => "BAD-OP"
+  | [r, p, "C", c, x, o] => match opts? o with
+    | none => "BAD-OP"
+    | some o => match reader? o r, path? p, bytes? x with
+      | some r, some path, some plain =>
+        if (signatureOf c).isNone then "BAD-OP" else
+        let file := toy.compress c plain
+        if readsBack o r path file plain then "DECODED"
+        else match r with
+          | .raw => if autoReader toy codecTable path file == some file then "VERBATIM" else "FAIL"
+          | _ => "FAIL"   -- record readers cannot parse a compressed stream
+      | _, _, _ => "BAD-OP"
+  | [r, p, "P", x, o] => match opts? o with
+    | none => "BAD-OP"
+    | some o => match reader? o r, path? p, bytes? x with
+      | some r, some path, some raw => if readsBack o r path raw raw then "VERBATIM" else "FAIL"
+      | _, _, _ => "BAD-OP"
+  | _ => "BAD-OP"
+
+/-- `(path, writer, plain)` triples of a CGLOB request -/
+def globItems? (o : Opts) : List String → Option (List (List Char × WTok × Bytes))
+  | [] => some []
+  | p :: w :: x :: rest => do
+    let path ← path? p
+    let w ← writer? o w
+    let plain ← bytes? x
+    let tl ← globItems? o rest
+    pure ((path, w, plain) :: tl)
+  | _ => none
+
+/-- `CGLOB <local_jsonl|local_csv|cloud_jsonl> <opts> (<path> <writer> <plain>)*`: every file is written
+    through its writer entry point under its own name, then all are read through the glob entry point
+    (files listed in the order `expand_glob` / `expand_cloud_glob` return them) -/
+def handleGlob : List String → String
+  | kind :: o :: rest => match opts? o with
+    | none => "BAD-OP"
+    | some o => match globItems? o rest with
+      | none => "BAD-OP"
+      | some items =>
+        if kind != "local_jsonl" && kind != "local_csv" && kind != "cloud_jsonl" then "BAD-OP" else
+        match items.mapM fun i => (storedOf o i.2.1 i.1 i.2.2).map fun b => (i.1, b) with
+        | none => "W=PANIC R=FAIL"
+        | some files =>
+          let ws := (items.zip files).map fun (i, f) => classifyStored f.2 i.2.2
+          let back :=
+            if kind == "local_csv" then
+              readGlob toy codecTable (lineCsv o.hdr) files == some (items.map fun i => cRecs o.hdr i.2.2).flatten
+            else readGlob toy codecTable lineJsonl files == some (items.map fun i => jRecs i.2.2).flatten
+          "W=" ++ ",".intercalate ws ++ " R=" ++ (if back then "SAME" else "FAIL")
   | _ => "BAD-OP"
 
 def handlers : List (String × (List String → String)) :=
-  [("CODECS", handleCodecs), ("LOWER", handleLower), ("DETECT", handleDetect), ("RT", handleRt), ("RD", handleRd)]
+  [("CODECS", handleCodecs), ("LOWER", handleLower), ("DETECT", handleDetect), ("DETECTS", handleDetectS),
+   ("RT", handleRt), ("RD", handleRd), ("CGLOB", handleGlob)]
 
 end IB.D10
